@@ -350,6 +350,8 @@ impl<'a> World<'a> {
         let (address, addr_ok) = match kind {
             Kind::ForeignMeta => (RegisterAddress::new(model::meta(self.plan.key_seed, 1), self.addr.owner()), false),
             Kind::ForeignOwner => (RegisterAddress::new(self.addr.meta(), self.keys[self.n_auth].public_key()), false),
+            // built for the other register, re-addressed below
+            Kind::Readdressed => (RegisterAddress::new(model::meta(self.plan.key_seed, 1), self.addr.owner()), false),
             _ => (self.addr, true),
         };
         // a client of another register has that register's CRDT
@@ -388,6 +390,14 @@ impl<'a> World<'a> {
             }
             _ => (RegisterOp::new(op_addr, node, &self.keys[source_actor]), true),
         };
+        // the re-addressed forgery: same crdt op, source and signature, this register's address
+        let (op, sig_genuine, addr_ok) = if kind == Kind::Readdressed {
+            let mut v = serde_json::to_value(&op).expect("op to json");
+            v["address"] = serde_json::to_value(self.addr).expect("address to json");
+            (serde_json::from_value::<RegisterOp>(v).expect("op from json"), false, true)
+        } else {
+            (op, sig_genuine, addr_ok)
+        };
         let facts = OpFacts {
             source_actor,
             source_authorised: source_actor < self.n_auth,
@@ -405,6 +415,7 @@ impl<'a> World<'a> {
                 Kind::ForeignMeta => "foreign_meta",
                 Kind::ForeignOwner => "foreign_owner",
                 Kind::Oversized => "oversized",
+                Kind::Readdressed => "readdressed_from_another_register",
             },
         };
         let canon = match self.index.get(&op) {
